@@ -150,6 +150,8 @@ impl<'a> Session<'a> {
             Ok(Some(p)) => {
                 self.p = Some(p);
                 self.alive = true;
+                // the increment before the first request is not specified
+                self.set_frequency(0.0);
             }
             Ok(None) => {
                 eprintln!("no PhaseAccumulator<{},{}> compiled in", w, i);
@@ -237,7 +239,20 @@ impl<'a> Session<'a> {
         } else {
             ("nonfinite", 0, 0)
         };
-        let extra = format!(",\"arg\":{},\"kind\":\"{}\",\"neg\":{},\"lo\":{},\"hi\":{}", key(ph), kind, ph < 0.0, lo, hi);
+        // a negative phase may be mirrored (|p|, as built) or wrapped (p mod 1 in [0, 1)): both depend on p
+        // modulo 1 only; wlo / whi bound the wrapped position
+        let (wlo, whi) = if ph.is_finite() && ph < 0.0 {
+            let fr = (ph.abs() % 1.0) as f64;
+            let wf = if fr == 0.0 { 0.0 } else { 1.0 - fr };
+            let m = (1u64 << self.w) as f64;
+            (((m - 1.0) * wf).floor() as i64 - 1, (m * wf).ceil() as i64 + 1)
+        } else {
+            (lo, hi)
+        };
+        let extra = format!(
+            ",\"arg\":{},\"kind\":\"{}\",\"neg\":{},\"lo\":{},\"hi\":{},\"wlo\":{},\"whi\":{}",
+            key(ph), kind, ph < 0.0, lo, hi, wlo, whi
+        );
         self.op("sp", &extra, |p| {
             p.set_phase(ph);
             String::new()
@@ -457,6 +472,9 @@ impl crate::graphrun::Target for GraphTarget {
         self.out = Out::memory();
         self.out.line(&format!("{{\"op\":\"new\",\"w\":{},\"i\":{},\"fs\":{}}}", self.w, self.i, key(fs)));
         self.p = make(self.w, self.i, fs);
+        if let Some(p) = self.p.as_mut() {
+            p.set_frequency(0.0); // the increment before the first request is not specified
+        }
     }
     fn apply(&mut self, op: &serde_json::Value, proj: &serde_json::Value) -> Vec<String> {
         let (w, i) = (self.w, self.i);
